@@ -65,6 +65,11 @@ func Judge(obs *e2e.Obs) (fs []finding, info map[string]int) {
 	// content of everything delivered anywhere
 	check := func(d e2e.Delivered) {
 		if d.Stamp == "" {
+			// the partial last line of a connection still open at the stop may end before its stamp
+			if pid, err := strconv.Atoi(d.Fields["pid"]); err == nil && open[pid-1000] {
+				info["partial_lines_from_open_connections"]++
+				return
+			}
 			add("phantom:no-stamp", fmt.Sprintf("%s/%s delivered an event without a stamp: %v", d.Output, d.Where, d.Fields))
 			return
 		}
